@@ -106,6 +106,23 @@ const OPS: [&str; 30] = ["c0", "c1", "var", "var", "var", "not", "and", "and", "
     "ite", "ex", "all", "aln", "amn", "exn", "leq", "lt", "geq", "gt", "ceq", "fpor", "fpand", "model", "infer"];
 const OPS2: [&str; 4] = ["rett", "retf", "reta", "clean"];
 
+/// every node reachable from a result (the leaves included) must be THE node the environment's table holds for
+/// its structure; `None`: it is
+fn off_table(env: &BDDEnv<rsbdd::NamedSymbol>, b: &Rc<BDD<rsbdd::NamedSymbol>>) -> Option<String> {
+    fn walk(env: &BDDEnv<rsbdd::NamedSymbol>, b: &Rc<BDD<rsbdd::NamedSymbol>>, seen: &mut std::collections::HashSet<usize>) -> Option<String> {
+        if !seen.insert(Rc::as_ptr(b) as usize) { return None; }
+        let held = env.nodes.borrow().get(b.as_ref()).map(|n| Rc::ptr_eq(n, b));
+        match held {
+            Some(true) => {}
+            Some(false) => return Some(format!("{} (another allocation than the table's)", crate::formula::show_ns(b))),
+            None => return Some(format!("{} (not in the table)", crate::formula::show_ns(b))),
+        }
+        if let BDD::Choice(t, _, f) = b.as_ref() { if let Some(k) = walk(env, t, seen) { return Some(k); } return walk(env, f, seen); }
+        None
+    }
+    walk(env, b, &mut std::collections::HashSet::new())
+}
+
 /// formula evaluations that share one `ParsedFormula` (one environment, one definition table):
 /// `{references}` are defined, evaluated, redefined and evaluated again; every evaluation is compared
 /// with the evaluation of a freshly parsed formula carrying the same definitions
@@ -127,7 +144,10 @@ fn c13_defs(out: &mut dyn Write, tier: &str, rng: &mut Rng, st: &mut Stats) {
             match with_ref { Some(r) => format!("({{{}}} {} ({}))", r, rng.pick(&["&", "|", "^", "=>"]), t), None => format!("({})", t) }
         };
         let t1 = term(rng, None);
-        let main_text = match h % 9 {
+        let main_text = match h % 11 {
+            // a reference that reaches the result without passing through a connective that rebuilds it
+            9 => "{r0}".to_string(),
+            10 => format!("{{r0}} {} {{r1}}", rng.pick(&["|", "&", "^"])),
             // shapes whose result collapses onto the referenced diagram itself (a redundant test over it)
             6 => format!("(a & {{r0}}) | (-a & {{r0}})"),
             7 => format!("({} | {{r0}}) & {{r0}}", t1),
@@ -141,6 +161,7 @@ fn c13_defs(out: &mut dyn Write, tier: &str, rng: &mut Rng, st: &mut Stats) {
         };
         let pf = match parse(&main_text) { Some(p) => p, None => continue };
         let mut defs: Vec<(String, String)> = Vec::new(); // current definitions: name -> text
+        let mut foreign: Vec<String> = Vec::new(); // names currently defined by a diagram of ANOTHER environment
         let steps = 3 + rng.below(5);
         for _ in 0..steps {
             if rng.chance(1, 2) {
@@ -151,9 +172,10 @@ fn c13_defs(out: &mut dyn Write, tier: &str, rng: &mut Rng, st: &mut Stats) {
                     // every third definition is given as the evaluated diagram of the other formula (nodes of another
                     // environment), the others as its syntax
                     // (not under a fixed point: substituting into a referenced diagram is `unimplemented!` by design)
-                    let as_bdd = h % 9 != 3 && (rng.chance(1, 3) || h % 9 >= 6) && !text.contains('{');
+                    let as_bdd = h % 11 != 3 && (rng.chance(1, 3) || (h % 11 >= 6 && h % 11 <= 8)) && !text.contains('{');
                     let given = if as_bdd { match eval_guarded(&d) { Ok(b) => Some(ReferenceContents::BDD(b)), Err(_) => None } } else { None };
-                    match given { Some(g) => { pf.define(which, g); st.hit("defs.define.bdd"); } None => pf.define(which, ReferenceContents::Syntax(d.bdd.clone())) }
+                    foreign.retain(|n| n != which);
+                    match given { Some(g) => { pf.define(which, g); foreign.push(which.to_string()); st.hit("defs.define.bdd"); } None => pf.define(which, ReferenceContents::Syntax(d.bdd.clone())) }
                     defs.retain(|(n, _)| n != which);
                     defs.push((which.to_string(), text));
                     st.hit("defs.define");
@@ -161,7 +183,15 @@ fn c13_defs(out: &mut dyn Write, tier: &str, rng: &mut Rng, st: &mut Stats) {
                 continue;
             }
             crate::watchdog::enter(&main_text);
-            let res = match eval_guarded(&pf) { Ok(b) => show_ns(&b), Err(_) => "PANIC".to_string() };
+            let res = match eval_guarded(&pf) {
+                Ok(b) => {
+                    // sharing: unless a diagram of another environment is among the definitions, everything reachable
+                    // from the result is the table's own node (an undefined reference is the shared false leaf)
+                    if foreign.is_empty() { st.hit("defs.table"); if let Some(k) = off_table(&pf.env, &b) { writeln!(out, "C13|table|{}", k).unwrap(); } }
+                    show_ns(&b)
+                }
+                Err(_) => "PANIC".to_string(),
+            };
             // the same formula and definitions, parsed afresh
             let fresh = match parse(&main_text) {
                 Some(fp) => {
@@ -192,7 +222,7 @@ fn c13_twice(out: &mut dyn Write, tier: &str, rng: &mut Rng, st: &mut Stats) {
         let fresh = match parse_text(text.as_bytes(), None) { Parsed::Ok(p) => match eval_guarded(&p) { Ok(b) => show_ns(&b), Err(_) => "PANIC".to_string() }, _ => continue };
         for round in 0..3 {
             crate::watchdog::enter(&text);
-            let res = match eval_guarded(&pf) { Ok(b) => show_ns(&b), Err(_) => "PANIC".to_string() };
+            let res = match eval_guarded(&pf) { Ok(b) => { if let Some(k) = off_table(&pf.env, &b) { writeln!(out, "C13|table|{}", k).unwrap(); } show_ns(&b) } Err(_) => "PANIC".to_string() };
             crate::watchdog::leave();
             writeln!(out, "C13|defs|{}||{}|{}", ser_real(&pf.bdd), res, fresh).unwrap();
             st.hit(&format!("twice.round{}", round));
@@ -248,6 +278,7 @@ fn c13_shared(out: &mut dyn Write, tier: &str, rng: &mut Rng, st: &mut Stats) {
                     let mut bad = None;
                     walk(&b, &mut seen, &mut bad);
                     if let Some(k) = bad { writeln!(out, "C13|share|{}", k).unwrap(); }
+                    if let Some(k) = off_table(&env, &b) { writeln!(out, "C13|table|{}", k).unwrap(); }
                 }
                 Err(_) => { writeln!(out, "C13|defs|{}||PANIC|{}", ser_real(&pf.bdd), fresh).unwrap(); }
             }
